@@ -17,13 +17,15 @@ const int vf_tunings[][8] = {
     {0, 4, 1, 8, 2, 2, 1, 4},             /* 8 */
     {0, 3, 8, 8, 2, 2, 1, 8},             /* 9 relax >= n: the whole (small) matrix is one relaxed supernode */
     {0, 2, 4, 4, 1, 1, 1, 4},             /* 10 */
+    {0, 6, 2, 6, 3, 3, 2, 6},             /* 11 wider panels: U-segments of length >= 4 inside a panel */
+    {0, 8, 4, 16, 4, 4, 1, 8},            /* 12 */
 };
-const int vf_ntunings = 11;
+const int vf_ntunings = 13;
 
 /* structural rank by augmenting paths; bit (i*n+j) set <=> entry (i,j) */
 static int aug(int m, int n, uint64_t pat, int j, int *seen, int *rowmatch)
 {
-    for (int i = 0; i < m; i++) if ((pat >> (i * n + j)) & 1) {
+    for (int i = 0; i < m; i++) if (vf_pat_bit(m, n, pat, i, j)) {
         if (seen[i]) continue;
         seen[i] = 1;
         if (rowmatch[i] < 0 || aug(m, n, pat, rowmatch[i], seen, rowmatch)) { rowmatch[i] = j; return 1; }
@@ -38,27 +40,43 @@ int pat_struct_rank(int m, int n, uint64_t pat)
     return r;
 }
 
+int vf_pat_gen = 0;
+int base_has(int n, int which, int i, int j)
+{
+    int d = (i == j);
+    switch (which) {
+    case 0: return d;
+    case 1: return d || i == j + 1 || j == i + 1;
+    case 2: return d || i == n - 1 || j == n - 1;
+    case 3: return d || i == 0 || j == 0;
+    case 4: { int h = n / 2; return d || ((i < h) == (j < h)); }
+    case 5: return d || j == i + 1 || i == n - 1;
+    case 6: return 1;
+    case 7: { int w = n / 2; if (w < 1) w = 1; if (d) return 1;
+              int a = i < j ? i : j, b = i < j ? j : i;            /* 2 x w grid Laplacian on nodes 0..2w-1 */
+              if (b >= 2 * w) return 0;
+              if (b == a + 1 && (a % w) + 1 < w && a / w == b / w) return 1;
+              if (b == a + w && a < w) return 1;
+              return 0; }
+    case 8: return d || (((i * 7 + j * 11 + i * j * 3 + 5) % 10) < 3);
+    }
+    return d;
+}
+int vf_pat_bit(int m, int n, uint64_t pat, int i, int j)
+{
+    if (vf_pat_gen == 0) return (int)((pat >> (i * n + j)) & 1);
+    if (vf_pat_gen == 1) { int b = base_has(n, (int)(pat & 255), i, j); long dev = (long)(pat >> 8); if (dev > 0 && dev - 1 == (long)i * n + j) b = !b; return b; }
+    /* pseudo-random, diagonal kept */
+    if (i == j) return 1;
+    uint64_t h = pat * 0x9E3779B97F4A7C15ull + (uint64_t)(i * 131 + j) * 0xBF58476D1CE4E5B9ull; h ^= h >> 29; h *= 0x94D049BB133111EBull; h ^= h >> 32;
+    return (int)(h % 100) < (int)(12 + (pat % 4) * 7);
+}
 #define BIT(i,j) ((uint64_t)1 << ((i) * n + (j)))
 int n_base_patterns(void) { return 9; }
 uint64_t base_pattern(int n, int which)
 {
     uint64_t p = 0;
-    for (int i = 0; i < n; i++) p |= BIT(i, i);
-    switch (which) {
-    case 0: break;                                                   /* diagonal */
-    case 1: for (int i = 0; i + 1 < n; i++) p |= BIT(i, i + 1) | BIT(i + 1, i); break;   /* tridiagonal */
-    case 2: for (int i = 0; i < n; i++) p |= BIT(i, n - 1) | BIT(n - 1, i); break;       /* arrow, last */
-    case 3: for (int i = 0; i < n; i++) p |= BIT(i, 0) | BIT(0, i); break;               /* arrow, first */
-    case 4: { int h = n / 2; for (int i = 0; i < n; i++) for (int j = 0; j < n; j++) if ((i < h) == (j < h)) p |= BIT(i, j); } break; /* 2 dense blocks */
-    case 5: for (int i = 0; i + 1 < n; i++) p |= BIT(i, i + 1); for (int j = 0; j < n; j++) p |= BIT(n - 1, j); break; /* upper bidiagonal + dense last row */
-    case 6: for (int i = 0; i < n; i++) for (int j = 0; j < n; j++) p |= BIT(i, j); break; /* dense */
-    case 7: { int w = n / 2; if (w < 1) w = 1;                          /* 2 x w grid Laplacian (+ leftover diagonal) */
-              for (int r = 0; r < 2; r++) for (int c = 0; c < w; c++) { int a = r * w + c; if (a >= n) continue;
-                  if (c + 1 < w && a + 1 < n) p |= BIT(a, a + 1) | BIT(a + 1, a);
-                  if (r == 0 && a + w < n) p |= BIT(a, a + w) | BIT(a + w, a); } } break;
-    case 8: for (int i = 0; i < n; i++) for (int j = 0; j < n; j++) if (((i * 7 + j * 11 + i * j * 3 + 5) % 10) < 3) p |= BIT(i, j);  /* fixed irregular, unsymmetric */
-            break;
-    }
+    for (int i = 0; i < n; i++) for (int j = 0; j < n; j++) if (base_has(n, which, i, j)) p |= BIT(i, j);
     return p;
 }
 uint64_t dev1_pattern(int n, uint64_t base, int k) { return k == 0 ? base : base ^ ((uint64_t)1 << (k - 1)); }
@@ -86,7 +104,7 @@ void make_values(const vf_type *T, int m, int n, uint64_t pat, int scheme, dmat 
 {
     memset(A, 0, sizeof *A); A->m = m; A->n = n;
     for (int i = 0; i < m; i++) for (int j = 0; j < n; j++) {
-        if (!((pat >> (i * n + j)) & 1)) continue;
+        if (!vf_pat_bit(m, n, pat, i, j)) continue;
         double v = 1.0;
         int h = (i * 7 + j * 13 + i * j * 5 + 3);
         switch (scheme) {
